@@ -103,6 +103,7 @@ class Node:
         self.nframes = nframes; self.produced = 0
         self.log = []            # what process() was handed: list of {topic: (o, seq)}
         self.raw_log = []
+        self.log_t = []
         self.alive = False; self.stalled_until = 0
         self.rtraces = []
         self.start()
@@ -158,7 +159,7 @@ class Node:
                 self.wake = net.now + POLL_NS; return True
             if self.mq.receiver is not None:
                 self.log.append({t: (f.data.get('o'), f.data.get('seq')) for t, f in fr.items()})
-                self.raw_log.append(fr)
+                self.raw_log.append(fr); self.log_t.append(net.now)
             orig = F.threading.Thread
             F.threading.Thread = InlineThread
             try: out = F.Filter.process_frames(self.filter, fr)
